@@ -108,6 +108,8 @@ ArgsFor(op) ==
            {WithBody([A0 EXCEPT !.exp = e, !.sets = s, !.dels = d, !.db = db, !.pres = p, !.cb = "apply"], b) :
                e \in {"0", "E1"}, s \in SetChoices, d \in {NoDels, Dels1("_t")}, db \in BOOLEAN,
                p \in BOOLEAN, b \in {"", "J1", "J3"}}
+           \* the callback returns a body only
+           \cup {WithBody([A0 EXCEPT !.exp = e, !.pres = p, !.cb = "apply"], b) : e \in {"0", "E1"}, p \in BOOLEAN, b \in {"J1", "J3"}}
       [] op = "DeleteWithXattrs" -> {[A0 EXCEPT !.dels = d] : d \in DelChoices \cup {NoDels}}
       [] op = "UpdateXattrDeleteBody" ->
            {[A0 EXCEPT !.exp = e, !.casc = c, !.sets = s] : e \in {"0", "E1"}, c \in CasClasses,
